@@ -76,6 +76,11 @@ Verdict(ev) ==
     ELSE CASE ev.e = "Free"  -> FreeVerdict(ev)
            [] ev.e = "State" -> StateVerdict(ev)
            [] ev.e = "Done"  -> DoneVerdict(ev)
+           \* copies / converting copies of real pixel types: same dimensions and pixels as the source, and independent of it
+           [] ev.e = "CopyEq" -> (IF ev.dw = ev.w /\ ev.dh = ev.h /\ ev.dp = ev.sp /\ ev.eq THEN {}
+                                  ELSE {V("P_CopyEqual", "None", ev.how \o ":" \o ev.src \o "->" \o ev.dst,
+                                          [w |-> ev.w, h |-> ev.h, salign |-> ev.salign, dalign |-> ev.dalign, eq |-> ev.eq, dims |-> <<ev.dw, ev.dh>>])})
+                                 \cup (IF ev.alias THEN {V("P_DeepCopy", "None", ev.how \o ":" \o ev.src \o "->" \o ev.dst, "write through the copy is visible in the source")} ELSE {})
            [] ev.e = "Fault" -> {V("P_NoFault", OpCause, Key, ev.kind)}
            [] ev.e \in {"Reset", "Op", "Alloc", "AllocFail", "End"} -> {}
            [] OTHER -> {V("UnknownEvent", "None", ev.e, l)}
@@ -99,7 +104,7 @@ Step == /\ l <= NTr
                                           THEN [w |-> ev.imgs[h].w, h |-> ev.imgs[h].hh, blk |-> ev.imgs[h].blk, bsize |-> ev.imgs[h].bsize, live |-> TRUE, a |-> ev.imgs[h].a]
                                           ELSE NoOwn]
                      ELSE own
-           /\ nchk' = nchk + (IF ev.e \in {"State", "Free", "Done"} THEN 1 ELSE 0)
+           /\ nchk' = nchk + (IF ev.e \in {"State", "Free", "Done", "CopyEq"} THEN 1 ELSE 0)
         /\ drift' = drift
         /\ l' = l + 1
 Fin  == /\ l = NTr + 1 /\ WriteOut(bad, drift, nchk) /\ l' = l + 1 /\ UNCHANGED <<bad, drift, nchk, tr, hp, op, own, nalloc, dead>>
